@@ -11,6 +11,7 @@ pub mod refsem;
 pub mod refsyn;
 pub mod report;
 pub mod sexp;
+pub mod supervise;
 
 use std::time::Instant;
 
@@ -98,6 +99,15 @@ fn main() {
             } else {
                 println!("replay of {}: does not violate", args[2]);
                 std::process::exit(0);
+            }
+        }
+        "worker" => {
+            match args[2].as_str() {
+                "C07" => props::c07::worker(&args[2..]),
+                other => {
+                    eprintln!("unknown worker {}", other);
+                    std::process::exit(2)
+                }
             }
         }
         "leaktest" => {
